@@ -1,5 +1,5 @@
 \* thorough: 3 features x 3 targets, unbuffered, 1 table: all 512 outcome maps x all interleavings
 CONSTANTS N = 3  Targets = {1, 2, 3}  Cap = 0  NT = 1  NChoices = {0, 1, 3}  TgChoices = {{1, 2, 3}, {2}}
 SPECIFICATION Spec
-INVARIANTS TypeOK C10_Prefix C10_AtReturn C11_ReturnAfterDone C11_WriterTable NoSendOnClosed
-PROPERTIES C11_TableStable C11_Terminates
+INVARIANTS TypeOK C10_Prefix C10_AtReturn C11_ReturnAfterDone C11_WriterTable NoSendOnClosed IntInvHolds
+PROPERTIES C11_TableStable C11_Terminates RefinesInt
